@@ -1,5 +1,5 @@
 """Property id -> check class; engines; properties not (yet) claimed."""
-from . import e1, e2, e3, e5, e6, e7, e8
+from . import e1, e2, e3, e5, e6, e7, e8, e9
 
 PROPS = {}
 PROPS.update(e1.PROPS)
@@ -9,8 +9,11 @@ PROPS.update(e7.PROPS)
 PROPS.update(e5.PROPS)
 PROPS.update(e6.PROPS)
 PROPS.update(e8.PROPS)
+PROPS.update(e9.PROPS)
 
 ENGINES = [
+    {"name": "E9-option-routes", "path": "vh/e9.py", "serves_properties": ["C20"],
+     "kind_free_text": "TLC model checking of Cli.tla (argparse greedy flags, recovery, config mapping) + TLC trace validation (TraceCli.tla) of route groups"},
     {"name": "E8-magnet", "path": "vh/e8.py", "serves_properties": ["C11"],
      "kind_free_text": "TLC model checking of MagnetRef (implementation-shaped magnet() vs reference) + TLC trace validation (TraceMagnet.tla) of URIs parsed with urllib"},
     {"name": "E6-histories", "path": "vh/e6.py", "serves_properties": ["C09"],
